@@ -284,3 +284,26 @@ M('c12-define-nocopy', 'C12', TTB, "        _table_cp = copy.deepcopy(self._tabl
 M('c12-define-overwrite', 'C12', PYF, "                if answer[idx] != DontCare:\n                    continue\n", "                if (args_tuple, idx) not in definition:\n                    continue\n", 'C12.DEFINE')
 M('c12-define-self', 'C12', BFN, "        if definition:\n            raise BadDefinitionError(\"Boolean function is already defined.\")\n        return self", "        return self", 'C12.DEFINE')
 M('c12-twin-prev-name', 'C12', PYF, "            old_value = value\n        return True", "            prev = value\n            old_value = prev\n        return True", None)
+
+# ---------------------------------------------------------------- C16
+ENCF = 'cirbo/circuits_db/circuits_encoding.py'
+BITF = 'cirbo/circuits_db/bit_io.py'
+BDF = 'cirbo/circuits_db/binary_dict_io.py'
+M('c16-ids-dup', 'C16', ENCF, "    gate.LT: 11,", "    gate.LT: 10,", 'C16.IDS')
+M('c16-ids-overflow', 'C16', ENCF, "    gate.ALWAYS_FALSE: 13,", "    gate.ALWAYS_FALSE: 16,", 'C16.IDS')
+M('c16-arity-guard-dropped', 'C16', ENCF, "    if len(gate_.operands) != _get_arity(gate_.gate_type):", "    if False:", 'C16.ARITY')
+M('c16-arity-not-two', 'C16', ENCF, "    if gate_type == gate.IFF or gate_type == gate.NOT:\n        return 1", "    if gate_type == gate.IFF:\n        return 1", 'C16.ARITY')
+M('c16-decoder-arity', 'C16', ENCF, "    for _ in range(_get_arity(gate_type)):", "    for _ in range(2):", 'C16.ARITY')
+M('c16-order-storage', 'C16', ENCF, "            if not pending:\n                result[label] = len(result)", "            if True:\n                result[label] = len(result)", 'C16.ORDER')
+M('c16-width-inputs', 'C16', ENCF, "        return max(\n            len(circuit.inputs), len(circuit.outputs), circuit.size - 1\n        ).bit_length()", "        return max(len(circuit.inputs), circuit.size - 1).bit_length()", 'C16.WIDTH')
+M('c16-mirror-param-order', 'C16', ENCF, "    inputs_count = bit_reader.read_number(word_size)\n    outputs_count = bit_reader.read_number(word_size)", "    outputs_count = bit_reader.read_number(word_size)\n    inputs_count = bit_reader.read_number(word_size)", 'C16.MIRROR')
+M('c16-mirror-type-width', 'C16', ENCF, "    gate_type_id = bit_reader.read_number(GATE_TYPE_BIT_SIZE)", "    gate_type_id = bit_reader.read_number(word_size)", 'C16.MIRROR')
+M('c16-bit-msb', 'C16', BITF, "            number |= bit << i", "            number |= bit << (bit_length - 1 - i)", 'C16.MIRROR')
+M('c16-bit-pos', 'C16', BITF, "        if self._bit_pos == 8:\n            self._bit_pos = 0\n            self._byte_pos += 1", "        if self._bit_pos == 7:\n            self._bit_pos = 0\n            self._byte_pos += 1", 'C16.MIRROR')
+M('c16-bit-overflow-silent', 'C16', BITF, "        if (number >> bit_length) != 0:", "        if (number >> (bit_length + 1)) != 0:", 'C16.MIRROR')
+M('c16-dict-len-chars', 'C16', BDF, "        _write_unsigned_number(stream, len(key_bytes), DICT_KEY_BYTE_SIZE)", "        _write_unsigned_number(stream, len(key), DICT_KEY_BYTE_SIZE)", 'C16')
+M('c16-dict-sizes', 'C16', BDF, "        val_len = _read_unsigned_number(stream, DICT_VALUE_BYTE_SIZE)", "        val_len = _read_unsigned_number(stream, DICT_KEY_BYTE_SIZE + 2)", 'C16.MIRROR')
+M('c16-exact-no-eof', 'C16', BDF, "    _expect_eof(stream)\n    return data", "    return data", 'C16.EXACT')
+M('c16-exact-short-read', 'C16', BDF, "    if len(arr) != length:\n        raise BinaryDictIOError(\"Unexpected EOF\")\n    return arr", "    return arr", 'C16.EXACT')
+M('c16-outputs-order', 'C16', ENCF, "    for label in circuit.outputs:\n        bit_writer.write_number(gate_identifiers[label], word_size)", "    for label in sorted(circuit.outputs):\n        bit_writer.write_number(gate_identifiers[label], word_size)", 'C16.MIRROR')
+M('c16-twin-topsort', 'C16', ENCF, "    in_progress: tp.Set[Label] = set()\n    for gate_label in circuit.gates:\n        stack = [gate_label]", "    for _g in circuit.top_sort(inverse=True):\n        if _g.label not in result:\n            result[_g.label] = len(result)\n    in_progress: tp.Set[Label] = set()\n    for gate_label in circuit.gates:\n        stack = [gate_label]", None)
